@@ -297,7 +297,7 @@ SWEEP = _sweeps()
 
 
 def plan(tier):
-    extra = 120000 if tier == "quick" else 3000000
+    extra = 120000 if tier == "quick" else 2400000
     return {"cases": len(SWEEP) + extra, "shards": 8 if tier == "quick" else 14,
             "min_nontrivial": 2000, "timeout": 600 if tier == "quick" else 2400,
             "require": {
@@ -603,7 +603,8 @@ class PhaseCtx:
 
 def run_diagram(ctx, case):
     """Phase 0 builds the diagram and executes it; every later phase (case["phases"]) adds modules / attempted wires /
-    handler registrations to the SAME diagram and executes again on the SAME executor."""
+    handler registrations to the SAME diagram and executes again on the SAME executor. case["reenter"] scripts handlers that
+    run the diagram again (same / second executor) while an execution is in progress; see execute_once()."""
     t = T()
     W, RT, TY = t["wagent"], t["rt"], t["types"]
     desc = brief(case)
@@ -734,8 +735,6 @@ def run_diagram(ctx, case):
             # scripted re-entry: this handler starts further executions of the diagram before it returns
             for ent in reentry.get((state["depth"], mname), ()):
                 execute_once(ent, state)
-            if frames[-1] is not state:
-                ctx.violation("execution-stack-unbalanced", "nested execute() did not return to the handler that started it", desc)
             if prog.get("ret_none"):
                 return None
             out = {}
